@@ -37,7 +37,15 @@ pub fn lane(pr: &PropRun) -> LaneReport {
 
 fn describe(seed: u64) -> String {
     let transport = ["unix stream (length-prefixed)", "unixgram", "udp"][(seed % 3) as usize];
-    format!("transport {}, mode {}, prefix {}, {} phases", transport, if seed / 3 % 2 == 0 { "Conservative" } else { "Aggressive" }, seed / 6 % 2 == 1, 2 + seed / 12 % 2)
+    format!(
+        "transport {}, mode {}, prefix {}, {} phases, histogram sampling {}, telemetry {}",
+        transport,
+        if seed / 3 % 2 == 0 { "Conservative" } else { "Aggressive" },
+        seed / 6 % 2 == 1,
+        2 + seed / 12 % 2,
+        ["builder default", "off", "on with reservoir 4", "on with reservoir 4096"][(seed / 5 % 4) as usize],
+        seed / 7 % 3 == 0
+    )
 }
 
 fn fail(sig: &str, msg: String) -> i32 {
@@ -121,8 +129,17 @@ pub fn child(seed: u64) -> i32 {
         Ok(b) => b,
         Err(e) => return fail("builder-rejects-address", format!("{:?}: {}", addr, e)),
     };
+    // histogram sampling: builder default (on, 1024), off, on with a tiny reservoir, on with a large one
+    let sampling_mode = seed / 5 % 4;
+    let telemetry = seed / 7 % 3 == 0;
+    b = match sampling_mode {
+        0 => b,
+        1 => b.with_histogram_sampling(false),
+        2 => b.with_histogram_sampling(true).with_histogram_reservoir_size(4),
+        _ => b.with_histogram_sampling(true).with_histogram_reservoir_size(4096),
+    };
     b = b
-        .with_telemetry(false)
+        .with_telemetry(telemetry)
         .with_flush_interval(interval)
         .with_aggregation_mode(if aggressive { AggregationMode::Aggressive } else { AggregationMode::Conservative })
         .send_histograms_as_distributions(distributions)
@@ -187,7 +204,16 @@ pub fn child(seed: u64) -> i32 {
         let mut sums: HashMap<String, u64> = HashMap::new();
         let mut hist: HashMap<u32, u32> = HashMap::new();
         let mut gauge_last: Option<f64> = None;
+        let mut sampled_messages = 0usize;
+        let tags_total = tags.len();
         for m in &msgs {
+            if telemetry && m.name.starts_with("datadog.dogstatsd.client.") {
+                // the exporter's own telemetry (documented, enabled by default): not part of the accounting
+                if m.mtype != "c" && m.mtype != "g" {
+                    return fail("wrong-type", format!("telemetry message {:?}", m));
+                }
+                continue;
+            }
             match m.mtype.as_str() {
                 "c" => {
                     if m.timestamp.is_some() != aggressive {
@@ -213,6 +239,23 @@ pub fn child(seed: u64) -> i32 {
                     for v in &m.values {
                         *hist.entry(v.parse::<f64>().unwrap_or(-1.0) as u32).or_insert(0) += 1;
                     }
+                    match m.sample_rate.as_deref().map(|r| r.parse::<f64>().unwrap_or(f64::NAN)) {
+                        None => {}
+                        Some(r) if sampling_mode == 2 && r > 0.0 && r < 1.0 => {
+                            sampled_messages += 1;
+                            // values / rate = number of values recorded in that flush window: a whole number no
+                            // larger than everything recorded
+                            let pushed = m.values.len() as f64 / r;
+                            if (pushed - pushed.round()).abs() > 1e-6 * pushed || pushed.round() as usize > tags_total {
+                                return fail("sample-rate-wrong", format!("message with {} values and sample rate {} implies {} recorded values ({} were recorded in all)", m.values.len(), r, pushed, tags_total));
+                            }
+                        }
+                        Some(r) if r == 1.0 => {}
+                        Some(r) => return fail("sample-rate-without-sampling", format!("histogram message carries sample rate {} but {}", r, if sampling_mode == 2 { "it is not a proper fraction" } else { "the configured reservoir holds every recorded value" })),
+                    }
+                    if sampling_mode == 2 && m.values.len() > 4 {
+                        return fail("more-than-capacity", format!("reservoir size 4 but one flush sent {} values of a histogram: {:?}", m.values.len(), m.values));
+                    }
                 }
                 _ => return fail("wrong-type", format!("{:?}", m)),
             }
@@ -231,7 +274,16 @@ pub fn child(seed: u64) -> i32 {
                 return fail("delta-exceeds-increments", format!("ci{} received {} > incremented {}", i, got, total_inc[i]));
             }
         }
-        let complete = (0..2).all(|i| sums.get(&name(&format!("ci{}", i))).copied().unwrap_or(0) == total_inc[i]) && tags.iter().all(|t| hist.contains_key(t)) && gauge_last.map(|g| g == last_gauge).unwrap_or(false);
+        let hist_complete = if sampling_mode == 2 {
+            // more than 4 values are recorded back to back in every phase, so at least one flush must have sampled
+            sampled_messages >= 1 && hist.len() < tags.len()
+        } else {
+            tags.iter().all(|t| hist.contains_key(t))
+        };
+        if hist.keys().any(|t| !tags.contains(t)) {
+            return fail("sampled-value-not-recorded", format!("histogram values received that were never recorded: {:?}", hist.keys().filter(|t| !tags.contains(t)).collect::<Vec<_>>()));
+        }
+        let complete = (0..2).all(|i| sums.get(&name(&format!("ci{}", i))).copied().unwrap_or(0) == total_inc[i]) && hist_complete && gauge_last.map(|g| g == last_gauge).unwrap_or(false);
         if complete {
             println!("CHILD-OK {} messages over {}", msgs.len(), describe(seed));
             let _ = std::fs::remove_dir_all(&dir);
